@@ -46,6 +46,9 @@ func newSimWorld(sc *Scenario) *simWorld {
 		_ = k.RegisterResponseCallback(m, func(ctx sdk.Context, id tmbytes.HexBytes, outs []string, err error) {})
 		_ = k.RegisterStateCallback(m, func(ctx sdk.Context, id tmbytes.HexBytes, cause string) {})
 	}
+	for _, m := range sc.Rig.ResponseOnlyModules {
+		_ = k.RegisterResponseCallback(m, func(ctx sdk.Context, id tmbytes.HexBytes, outs []string, err error) {})
+	}
 	for _, ms := range sc.Rig.ModuleServices {
 		spec := ms
 		_ = k.RegisterModuleService(spec.Module, &st.ModuleService{ServiceName: spec.Service, Provider: spec.Provider,
